@@ -200,7 +200,10 @@ func recursionGuarded(d *declInfo, call *ast.CallExpr) (bool, string) {
 	}
 	// structural descent over by-value component trees
 	if len(d.fd.Type.Params.List) > 0 {
+		defs := singleDefs(d.pkg, d.fd.Body)
 		for _, a := range call.Args {
+			// look through single-definition locals: comp := &(*comps)[i]; f(comp.Components)
+			a = expandLocals(d, defs, a, 0)
 			s := types.ExprString(a)
 			for _, pf := range d.fd.Type.Params.List {
 				for _, pn := range pf.Names {
@@ -214,7 +217,7 @@ func recursionGuarded(d *declInfo, call *ast.CallExpr) (bool, string) {
 						if !ok {
 							return true
 						}
-						t := d.pkg.TypesInfo.TypeOf(ix.X)
+						t := typeOfExpanded(d, ix.X)
 						if t == nil {
 							return true
 						}
@@ -323,6 +326,23 @@ func traversalGuards(c *Ctx) {
 					resultIdx = baseObj(d, rs.X)
 				}
 			}
+			// or the inlined form: x.Nodes = append(x.Nodes, v)
+			ast.Inspect(rs.Body, func(m ast.Node) bool {
+				if as, ok := m.(*ast.AssignStmt); ok && len(as.Lhs) == 1 && len(as.Rhs) == 1 {
+					if sel, ok := as.Lhs[0].(*ast.SelectorExpr); ok && sel.Sel.Name == "Nodes" {
+						if ce, ok := as.Rhs[0].(*ast.CallExpr); ok {
+							if id, ok := ce.Fun.(*ast.Ident); ok && id.Name == "append" {
+								if t := d.pkg.TypesInfo.TypeOf(rs.X); t != nil {
+									if _, isMap := t.Underlying().(*types.Map); isMap {
+										resultIdx = baseObj(d, rs.X)
+									}
+								}
+							}
+						}
+					}
+				}
+				return true
+			})
 			return true
 		})
 		if resultIdx == nil {
@@ -462,7 +482,7 @@ func traversalGuards(c *Ctx) {
 					if sel, ok := l.(*ast.SelectorExpr); ok && sel.Sel.Name == "RootElements" && i < len(s.Rhs) {
 						n++
 						if ce, ok := s.Rhs[i].(*ast.CallExpr); ok && len(ce.Args) == 2 {
-							v := types.ExprString(ce.Args[1])
+							v := normText(types.ExprString(ce.Args[1]))
 							if !(v == "id" || strings.HasSuffix(v, ".Id")) {
 								okRoot = false
 							}
@@ -562,4 +582,75 @@ func inconsistentKeys(c *Ctx, entries []string) {
 			return true
 		})
 	}
+}
+
+// expandLocals substitutes single-definition locals inside an expression (bounded depth).
+func expandLocals(d *declInfo, defs map[types.Object]ast.Expr, e ast.Expr, depth int) ast.Expr {
+	if depth > 4 {
+		return e
+	}
+	switch x := e.(type) {
+	case *ast.Ident:
+		if def, ok := defs[objOf(d.pkg, x)]; ok {
+			return expandLocals(d, defs, def, depth+1)
+		}
+	case *ast.SelectorExpr:
+		return &ast.SelectorExpr{X: expandLocals(d, defs, x.X, depth+1), Sel: x.Sel}
+	case *ast.StarExpr:
+		return &ast.StarExpr{X: expandLocals(d, defs, x.X, depth+1)}
+	case *ast.ParenExpr:
+		return &ast.ParenExpr{X: expandLocals(d, defs, x.X, depth+1)}
+	case *ast.UnaryExpr:
+		return &ast.UnaryExpr{Op: x.Op, X: expandLocals(d, defs, x.X, depth+1)}
+	case *ast.IndexExpr:
+		return &ast.IndexExpr{X: expandLocals(d, defs, x.X, depth+1), Index: x.Index}
+	}
+	return e
+}
+
+// typeOfExpanded finds the type of an expression that may contain synthesised wrapper nodes by
+// descending to typed sub-expressions.
+func typeOfExpanded(d *declInfo, e ast.Expr) types.Type {
+	if t := d.pkg.TypesInfo.TypeOf(e); t != nil {
+		return t
+	}
+	switch x := e.(type) {
+	case *ast.ParenExpr:
+		return typeOfExpanded(d, x.X)
+	case *ast.StarExpr:
+		if t := typeOfExpanded(d, x.X); t != nil {
+			if p, ok := t.Underlying().(*types.Pointer); ok {
+				return p.Elem()
+			}
+		}
+	case *ast.SelectorExpr:
+		if t := typeOfExpanded(d, x.X); t != nil {
+			if p, ok := t.Underlying().(*types.Pointer); ok {
+				t = p.Elem()
+			}
+			if st, ok := t.Underlying().(*types.Struct); ok {
+				for i := 0; i < st.NumFields(); i++ {
+					if st.Field(i).Name() == x.Sel.Name {
+						return st.Field(i).Type()
+					}
+				}
+			}
+		}
+	case *ast.UnaryExpr:
+		if x.Op == token.AND {
+			if t := typeOfExpanded(d, x.X); t != nil {
+				return types.NewPointer(t)
+			}
+		}
+	case *ast.IndexExpr:
+		if t := typeOfExpanded(d, x.X); t != nil {
+			switch u := t.Underlying().(type) {
+			case *types.Slice:
+				return u.Elem()
+			case *types.Array:
+				return u.Elem()
+			}
+		}
+	}
+	return nil
 }
